@@ -1,4 +1,5 @@
-(* PV.C08.Refuted — one counter-model per guard conjunct: a valid state and a request on which the
+(* PV.C08.Refuted — one counter-model per guard conjunct (open findings) and regression examples of the
+   repaired behaviour for the five findings fixed in /repo.  Counter-models: a valid state and a request on which the
    conjunct is false, the graph part of the setter (run on build s) agrees with the closed form,
    and the property fails.  Each is a known finding (known_findings.d/C08.json), reproduced on the
    real code by the stored call sequence. *)
@@ -12,29 +13,32 @@ Definition fails (f : req) (s : sk) : Prop := refines f s = true /\ ~ step_good 
 
 Ltac refute := split; [vm_compute; reflexivity | unfold step_good; vm_compute; intuition discriminate].
 
-(* C08-INST-TRANSIT-DEPOT: IndexError *)
-Theorem inst_depot_dosed_refuted :
-  exists s, valid s = true /\ g_inst_depot_dosed AbsInst s = false /\ fails AbsInst s
-            /\ setter_graph AbsInst (build s) = Crash CIndex.
-Proof. exists (sk0 FO 1 0 false). repeat split; try (vm_compute; reflexivity). unfold step_good. vm_compute. auto. Qed.
+(* ---- regression examples of defects that are FIXED in /repo (a recurrence is a VIOLATION of the check) ---- *)
+Definition repaired (f : req) (s s' : sk) : Prop :=
+  valid s = true /\ guard f s = true /\ refines f s = true /\ step f s = SOk s' /\ valid s' = true.
 
-(* C08-INST-STALE-SYSTEM: the depot comes back — the result is first-order, not instantaneous *)
-Theorem inst_not_stale_refuted :
-  exists s, valid s = true /\ g_inst_not_stale AbsInst s = false /\ fails AbsInst s
-            /\ step AbsInst s = SOk (with_abs s FO).
-Proof. exists (sk0 SEQ 0 0 false). repeat split; try (vm_compute; reflexivity). unfold step_good. vm_compute. intuition discriminate. Qed.
+(* C08-INST-TRANSIT-DEPOT (3342873): was IndexError; the depot is removed and the chain reconnected *)
+Example inst_depot_dosed_fixed :
+  repaired AbsInst (sk0 FO 2 0 false) (with_abs (sk0 FO 2 0 false) INST)
+  /\ canon_abs (with_abs (sk0 FO 2 0 false) INST) = FO.
+Proof. unfold repaired. repeat split; vm_compute; reflexivity. Qed.
 
-(* C08-SEQ-NO-DEPOT: AttributeError on None *)
-Theorem seq_has_depot_refuted :
-  exists s, valid s = true /\ g_seq_has_depot AbsSeq s = false /\ fails AbsSeq s
-            /\ setter_graph AbsSeq (build s) = Crash CAttr.
-Proof. exists (sk0 INST 2 0 false). repeat split; try (vm_compute; reflexivity). unfold step_good. vm_compute. auto. Qed.
+(* C08-INST-STALE-SYSTEM (decea79): was the old system coming back (FO); now instantaneous *)
+Example inst_not_stale_fixed :
+  repaired AbsInst (sk0 SEQ 0 0 false) (with_abs (sk0 SEQ 0 0 false) INST)
+  /\ repaired AbsInst (sk0 SEQ 3 1 false) (with_abs (sk0 SEQ 3 1 false) INST).
+Proof. unfold repaired. repeat split; vm_compute; reflexivity. Qed.
 
-(* C08-SEQ-TRANSIT-DEPOT: list.remove(x): x not in list *)
-Theorem seq_depot_dosed_refuted :
-  exists s, valid s = true /\ g_seq_depot_dosed AbsSeq s = false /\ fails AbsSeq s
-            /\ setter_graph AbsSeq (build s) = Crash CListRemove.
-Proof. exists (sk0 FO 1 0 false). repeat split; try (vm_compute; reflexivity). unfold step_good. vm_compute. auto. Qed.
+(* C08-SEQ-NO-DEPOT (2e21c7f): was AttributeError on None; the infusion goes on TRANSIT1 and reads SEQ *)
+Example seq_has_depot_fixed :
+  repaired AbsSeq (sk0 INST 2 0 false) (with_abs (sk0 INST 2 0 false) ZO)
+  /\ canon_abs (with_abs (sk0 INST 2 0 false) ZO) = SEQ.
+Proof. unfold repaired. repeat split; vm_compute; reflexivity. Qed.
+
+(* C08-SEQ-TRANSIT-DEPOT (e1c4639): was list.remove(x); the infusion goes on the dosing compartment *)
+Example seq_depot_dosed_fixed :
+  repaired AbsSeq (sk0 FO 1 0 false) (with_abs (sk0 FO 1 0 false) SEQ).
+Proof. unfold repaired. repeat split; vm_compute; reflexivity. Qed.
 
 (* C08-ZO-TRANSIT-DEPOT: the chain is left dangling — not a skeleton graph *)
 Theorem zo_depot_dosed_refuted :
@@ -81,12 +85,19 @@ Theorem no_single_transit_refuted :
             /\ step (Transits 1 true) s = SOk (with_tr s 1) /\ valid (with_tr s 1) = false.
 Proof. exists (sk0 INST 2 0 false). repeat split; try (vm_compute; reflexivity). unfold step_good. vm_compute. intuition discriminate. Qed.
 
-(* C08-PERIPH-STRING-ORDER: PERIPHERAL9 is removed instead of PERIPHERAL10 *)
-Theorem periph_le9_refuted :
-  exists s, valid s = true /\ g_periph_le9 PerRem s = false /\ fails PerRem s /\ step PerRem s = SAnom
-            /\ map n_name (find_peripherals (build s))
-               = [NPeriph 1; NPeriph 10; NPeriph 2; NPeriph 3; NPeriph 4; NPeriph 5; NPeriph 6; NPeriph 7; NPeriph 8; NPeriph 9].
-Proof. exists (sk0 INST 0 10 false). repeat split; try (vm_compute; reflexivity). unfold step_good. vm_compute. auto. Qed.
+(* the repaired set_instantaneous_absorption is one more way into it: depot behind ONE transit *)
+Theorem no_single_transit_refuted_inst :
+  exists s, valid s = true /\ g_no_single_transit AbsInst s = false /\ fails AbsInst s
+            /\ step AbsInst s = SOk (with_abs s INST) /\ valid (with_abs s INST) = false.
+Proof. exists (sk0 FO 1 0 false). repeat split; try (vm_compute; reflexivity). unfold step_good. vm_compute. intuition discriminate. Qed.
+
+(* C08-PERIPH-STRING-ORDER (6f6df8b): was PERIPHERAL9 removed instead of PERIPHERAL10 *)
+Example periph_order_fixed :
+  repaired PerRem (sk0 INST 0 10 false) (with_per (sk0 INST 0 10 false) 9)
+  /\ map n_name (find_peripherals (build (sk0 INST 0 10 false)))
+     = [NPeriph 1; NPeriph 2; NPeriph 3; NPeriph 4; NPeriph 5; NPeriph 6; NPeriph 7; NPeriph 8; NPeriph 9; NPeriph 10]
+  /\ refines (PerSet 8) (sk0 FO 1 11 false) = true.
+Proof. unfold repaired. repeat split; vm_compute; reflexivity. Qed.
 
 (* C08-DROPS-BIOAVAILABILITY: F goes away with the removed depot *)
 Theorem keeps_bio_refuted :
